@@ -151,6 +151,11 @@ func (p *PathRun) pickNext(cur *Thread, mustSwitch bool) *Thread {
 	if curEnabled && p.sched.preemptions >= p.eng.cfg.Preemptions {
 		return cur
 	}
+	if p.eng.cfg.Params["sched_det"] != 0 {
+		// one deterministic schedule (lowest runnable goroutine first): for harnesses whose property
+		// does not depend on the interleaving; stated as a bound in the evidence.
+		return en[0]
+	}
 	// decision
 	k := p.ChooseFree(len(en))
 	next := en[k]
